@@ -11,14 +11,51 @@ import (
 func present(f sipsp.PField) bool { return f.Len > 0 || f.Offs != 0 }
 
 // evalC14 checks one URI string against the lossless-ordered-decomposition oracle.
-func evalC14(in []byte) (vs []*Violation, accepted bool) {
+func evalC14(in []byte) (vs []*Violation, accepted bool) { return evalC14via(in, "") }
+
+var c14Prefill = []byte("sips:user:pw@host.example:5061;p=1?h=2")
+
+// evalC14via: via "" parses with ParseURI; via "parsecmp1" / "parsecmp2" takes the URI that URIParseCmp hands back
+// in its first / second result structure, which the caller has used before (for a longer URI) and not reset.
+func evalC14via(in []byte, via string) (vs []*Violation, accepted bool) {
+	site := "ParseURI"
+	if via != "" {
+		site = "URIParseCmp"
+	}
 	add := func(rule, class, detail string) {
-		vs = append(vs, &Violation{Property: "C14", Site: "ParseURI", Rule: rule, Class: class, Detail: detail, Case: mkCase("C14", "ParseURI", nil, in, nil)})
+		c := mkCase("C14", site, nil, in, nil)
+		if via != "" {
+			c.Extra = map[string]any{"via": via}
+			class = via + "/" + class
+		}
+		vs = append(vs, &Violation{Property: "C14", Site: site, Rule: rule, Class: class, Detail: detail, Case: c})
 	}
 	var u sipsp.PsipURI
 	var err sipsp.ErrorURI
 	var n int
-	_, pm := guarded(func() string { err, n = sipsp.ParseURI(in, &u); return "" })
+	_, pm := guarded(func() string {
+		switch via {
+		case "":
+			err, n = sipsp.ParseURI(in, &u)
+		default:
+			var r1, r2 sipsp.PsipURI
+			sipsp.ParseURI(c14Prefill, &r1)
+			r2 = r1
+			other := []byte("sip:o")
+			n = len(in)
+			if via == "parsecmp1" {
+				_, err, _ = sipsp.URIParseCmp(in, other, 0, &r1, &r2)
+				u = r1
+			} else {
+				_, err, _ = sipsp.URIParseCmp(other, in, 0, &r1, &r2)
+				u = r2
+			}
+			if err != 0 {
+				n = 0
+			}
+		}
+		return ""
+	})
 	if pm != "" {
 		add("no-panic", "panic", pm)
 		return
@@ -60,8 +97,8 @@ func evalC14(in []byte) (vs []*Violation, accepted bool) {
 			if present(u.Host) {
 				add("tel-host-empty", "host-present", fmt.Sprintf("Host=%v", u.Host))
 			}
-			if !bytes.Equal(u.User.Get(in), num) || (len(num) > 0 && int(u.User.Offs) != 4) {
-				add("tel-number-in-user", "user", fmt.Sprintf("User=%q want %q", u.User.Get(in), num))
+			if !bytes.Equal(safeGet(in, u.User), num) || (len(num) > 0 && int(u.User.Offs) != 4) {
+				add("tel-number-in-user", "user", fmt.Sprintf("User=%q want %q", safeGet(in, u.User), num))
 			}
 		}
 		return
@@ -116,14 +153,14 @@ func evalC14(in []byte) (vs []*Violation, accepted bool) {
 			}
 		}
 	}
-	if h := u.Host.Get(in); len(h) > 0 && h[0] == '[' && h[len(h)-1] != ']' {
+	if h := safeGet(in, u.Host); len(h) > 0 && h[0] == '[' && h[len(h)-1] != ']' {
 		add("ipv6-host-keeps-brackets", "bracket", fmt.Sprintf("host %q", h))
 	}
 	if present(u.Port) {
 		// PortNo consistency is C10's; here only that the port text is digits
-		for _, c := range u.Port.Get(in) {
+		for _, c := range safeGet(in, u.Port) {
 			if c < '0' || c > '9' {
-				add("port-digits", "nondigit", fmt.Sprintf("port %q", u.Port.Get(in)))
+				add("port-digits", "nondigit", fmt.Sprintf("port %q", safeGet(in, u.Port)))
 				break
 			}
 		}
@@ -135,6 +172,7 @@ func checkC14(r *Run) {
 	r.Assume = []string{"alphabet a 1 : @ ; ? & = [ ] . / after sip:/sips:/tel: (and case variants of the scheme); longer inputs are outside the bound"}
 	sig := []byte("a1:@;?&=[]./")
 	L := r.pick(8, 9)
+	viaLen := r.pick(5, 6)
 	for _, sch := range []string{"sip:", "sips:", "tel:", "SIP:", "sIpS:", "Tel:"} {
 		l := L
 		if sch != "sip:" && sch != "sips:" {
@@ -144,6 +182,14 @@ func checkC14(r *Run) {
 			vs, acc := evalC14(s)
 			c.st.Evals++
 			c.st.Transitions++
+			if acc && len(s)-len(sch) <= viaLen {
+				// the same URI as handed back by URIParseCmp into used result structures
+				for _, via := range []string{"parsecmp1", "parsecmp2"} {
+					v2, _ := evalC14via(s, via)
+					vs = append(vs, v2...)
+					c.st.Transitions++
+				}
+			}
 			if !acc {
 				c.st.Outcomes["rejected"]++
 			}
@@ -171,10 +217,15 @@ func checkC14(r *Run) {
 	}
 	r.Bounds["alphabet"] = string(sig)
 	r.Bounds["max_len_after_scheme"] = L
+	r.Bounds["max_len_after_scheme_via_URIParseCmp"] = viaLen
 }
 
 func init() {
-	replayers["C14"] = func(prop string, c *Case) []*Violation { vs, _ := evalC14(c.input()); return vs }
+	replayers["C14"] = func(prop string, c *Case) []*Violation {
+		via, _ := c.Extra["via"].(string)
+		vs, _ := evalC14via(c.input(), via)
+		return vs
+	}
 	register("C14", &checkDef{fn: checkC14,
 		rule:        "E4: every string of length <= L over the delimiter alphabet after each scheme prefix is parsed by the real ParseURI and checked against the decomposition oracle (disjoint, ordered, exact delimiters, concatenation = input, '@' rule, brackets, consumed = len; rejected: error offset inside input); states = accepted URIs, transitions = ParseURI calls; non-trivial = accepted URI",
 		quickBudget: 120 * time.Second, thorBudget: 20 * time.Minute})
